@@ -10,12 +10,12 @@ IMPORTS = "From Coq Require Import ZArith QArith List.\nImport ListNotations.\nF
 RULE = ("grid: every level k/1000 x reporting counts n from minimum-1 upwards (quick: +60 and 5 large n; thorough: +4000), "
         "implementation minimum / training fraction compared with the exact-rational model inside Coq and the split-validity "
         "predicate evaluated on the implementation's own numbers; end-to-end: get_estimates with exactly minimum-1, minimum, "
-        "minimum+1.. modelled reporting units per estimator and level set (outcome vs the gate model), duplicate reporting ids (a repeated feed row; the same id reporting in two states). "
+        "minimum+1.. modelled reporting units per estimator and level set (outcome vs the gate model), the same with a wide design (two covariates and a county fixed effect), duplicate reporting ids (a repeated feed row; the same id reporting in two states). "
         "distinct = distinct (estimator, levels, n - minimum, outcome) for end-to-end runs plus distinct (level) grid rows; "
         "non-trivial = n within 12 of the minimum or a grid row whose minimum >= 2")
 
 
-def e2e_case(alphas, n_rep, pi, seed, n_non=5, dup=False, features=None):
+def e2e_case(alphas, n_rep, pi, seed, n_non=5, dup=False, features=None, wide=False):
     rng = random.Random(seed)
     c = gen.gen_election(rng, n_states=1, n_units=n_rep + n_non, office="S", unit_type="precinct")
     base = c["baseline"][: n_rep + n_non]
@@ -38,8 +38,13 @@ def e2e_case(alphas, n_rep, pi, seed, n_non=5, dup=False, features=None):
     mp = {"fit_turnout_outlier_model": False, "fit_margin_outlier_model": False, "turnout_factor_lower": 0.01, "turnout_factor_upper": 100.0}
     if pi == "bootstrap":
         mp["B"] = 20
+    fes = {}
+    if wide and pi != "bootstrap":
+        # many coefficients next to the minimum number of units: two covariates and a fixed effect with several levels
+        feats = ["feat_a", "feat_b"]
+        fes = {"county_fips": "all"}
     c["params"] = {"estimands": est, "prediction_intervals": list(alphas), "percent_reporting_threshold": 100, "pi_method": pi,
-                   "aggregates": ["postal_code", "unit"], "features": feats, "fixed_effects": {}, "model_parameters": mp,
+                   "aggregates": ["postal_code", "unit"], "features": feats, "fixed_effects": fes, "model_parameters": mp,
                    "handle_unreporting": "drop"}
     return c
 
@@ -49,7 +54,7 @@ def _run_e2e(job):
 
     alphas, n, pi, seed, dup = job[:5]
     n_non = job[5] if len(job) > 5 else 5
-    c = e2e_case(alphas, n, pi, seed, n_non=n_non, dup=dup)
+    c = e2e_case(alphas, n, pi, seed, n_non=n_non, dup=dup, wide=(len(job) > 6 and job[6] == "wide"))
     r = run_impl.run_case(c)
     n_rep_actual = None
     return {"job": job, "ok": r["ok"], "exc": r["exc"], "n_base": len(c["baseline"]), "tb": r.get("tb")}
@@ -150,6 +155,10 @@ def run(chk):
     jobs.append(([0.9], 4, "gaussian", 13, False, 0))
     jobs.append(([0.9], 6, "bootstrap", 14, False, 0))
     jobs.append(([0.7], 9, "nonparametric", 15, False, 0))
+    # many coefficients at exactly the minimum / just above it: the run still completes
+    for alphas_w, n_w, pi_w in (([0.9], 20, "nonparametric"), ([0.7, 0.9], 20, "nonparametric"), ([0.7, 0.9], 22, "nonparametric"), ([0.7], 7, "nonparametric"),
+                                ([0.7, 0.9], 7, "gaussian"), ([0.9], 8, "gaussian"), ([0.9], 19, "nonparametric")):
+        jobs.append((alphas_w, n_w, pi_w, rng.randint(0, 10**6), False, 5, "wide"))
     jobs.append(([0.7], 12, "nonparametric", 5, True))
     jobs.append(([0.7], 12, "gaussian", 6, True))
     jobs.append(([0.9], 12, "nonparametric", 7, True))  # too few AND duplicate: gate first
